@@ -284,6 +284,7 @@ const (
 	c04PRefAlt // (?:@v@|lit): the reference is one branch of an alternation
 	c04PRefOpt // (?:@v@)?
 	c04PRefRep // (?:@v@){2}
+	c04PRefEnd // @v@{2}: the repetition applies to the last byte of the value that is pasted in
 	c04PAssert
 )
 
@@ -499,6 +500,11 @@ func (e *c04Elem) build() error {
 			pre.WriteString("(?:(?:.*)){2}")
 			e.refs = append(e.refs, p.name)
 			continue
+		case c04PRefEnd:
+			text.WriteString("@" + p.name + "@{2}")
+			pre.WriteString("(?:.*)")
+			e.refs = append(e.refs, p.name)
+			continue
 		}
 		text.WriteString(s)
 		pre.WriteString(s)
@@ -644,6 +650,15 @@ func (e *c04Elem) sample(rt *rapid.T, label string, vars map[string][]byte) []by
 				v = c04Filler(rt, label+".f")
 			}
 			out = append(append(out, v...), v...)
+		case c04PRefEnd:
+			v, ok := vars[p.name]
+			if !ok || len(v) == 0 {
+				v = c04Filler(rt, label+".f")
+			}
+			out = append(out, v...)
+			if len(v) > 0 {
+				out = append(out, v[len(v)-1])
+			}
 		}
 	}
 	return out
@@ -923,6 +938,9 @@ func (g *c04Gen) user(vars ...string) *c04Elem {
 			case k == 2:
 				ps = append(ps, c04Piece{kind: c04PRefRep, name: v})
 				g.c.Label("reference-inside-counted-repetition")
+			case k == 3:
+				ps = append(ps, c04Piece{kind: c04PRefEnd, name: v})
+				g.c.Label("reference-followed-by-repetition-operator")
 			default:
 				ps = append(ps, c04Piece{kind: c04PRef, name: v})
 			}
@@ -935,6 +953,16 @@ func (g *c04Gen) user(vars ...string) *c04Elem {
 			ps = append(ps, g.lit(1, 2))
 		case k < 6:
 			ps = append(ps, g.atom(c04Atoms), g.lit(1, 1))
+		}
+		if g.cfg.anchored {
+			// assertions around an expression that refers to a variable: whether the shortcuts of the engine may be
+			// used depends on the expression it compiles for the stream, not on the text around the references
+			if g.chance(30, "use-assert-front") {
+				ps = append([]c04Piece{g.assertion()}, ps...)
+			}
+			if g.chance(30, "use-assert-back") {
+				ps = append(ps, g.assertion())
+			}
 		}
 		return ps
 	})
